@@ -31,21 +31,21 @@ CHECKS = {
          "five routes incl. fixed-width layout checks, plus a real-function stream at 8 significant digits. C02_code_writer: the writer regenerated from the source raises exactly "
          "when the model rejects and otherwise emits exactly the model's table, for every input.",
     ref="4 C02", technique="Lean 4 theorems about a hand model proved equal to the writer regenerated from source + differential correspondence (tracer potentials, fixed-width tokeniser)",
-    note=NOTE_COMMON + KERNEL_NOTE + CODE_NOTE + "Not modelled: floating-point accumulation r += delpot (tested to printed precision), nr = 4 (division by zero) excluded from the domain."),
+    note=NOTE_COMMON + KERNEL_NOTE + CODE_NOTE + "Floating-point accumulation r += delpot: bounded by theorem under the standard model of rounding (C02_accum_float/_rel/_binary64) and tested; nr = 4 (division by zero) excluded from the domain."),
  "C03": dict(
     text="Theorems (Lean, element lists of any length): header names/ntypes, grid numbers (C03_header_grid, C03_grid_tab), element blocks with own metadata and exactly "
          "Nrho/Nr samples at i*step (C03_element_blocks, sampled_get), n(n+1)/2 pair blocks in lower-triangular order (lowerTri_*, C03_pair_count, C03_pair_block), lookup "
          "independent of declaration orientation and zero when undeclared (C03_pair_lookup_found/_missing, pairKey_comm), r*phi slots (C03_pair_slots), metadata precedence "
          "(C03_metadata_*). Tied to the code by tracer correspondence through writeSetFL, SetFL_EAMTabulation, potable setfl/lammps_eam_alloy and the potable entry point, "
-         "including the model of the EAM builder and reference data.",
-    ref="4 C03", technique="Lean 4 theorems about hand model (writer + builder + reference data) + differential correspondence",
-    note=NOTE_COMMON + KERNEL_NOTE + "The header's fifth number and comment lines are not constrained by the property and not compared; set iteration order of zero-filled species is an explicit parameter (C12)."),
+         "including the model of the EAM builder and reference data. C03_code_element_header/_embedding/_density/_pair_pots/_setfl_write: the pieces of the setfl writer regenerated from the source mean exactly the model's setfl, for every input and every interpretation of the callables.",
+    ref="4 C03", technique="Lean 4 theorems about hand model (writer + builder + reference data) + differential correspondence; setfl writer regenerated from source and proved to mean the model's file",
+    note=NOTE_COMMON + CODE_NOTE + KERNEL_NOTE + "The header's fifth number and comment lines are not constrained by the property and not compared; set iteration order of zero-filled species is an explicit parameter (C12)."),
  "C04": dict(
     text="Theorems (Lean): C04_setfl_slot (LAMMPS eam/fs consumer reads exactly dens[central][neighbour] for any Nodup element list), C04_tabeam_slot, C04_excel_cols, "
          "C04_builder (A->B stored as dens[A][B], zero otherwise, any entry order), C04_zero_fill, C04_cluster. Consumer conventions are specification text. Tied to the code by "
-         "asymmetric tracer models through setfl_fs, DL_POLY_EAM_fs and excel_eam_fs (API and potable) plus an independent toy-cluster recomputation from the files.",
-    ref="4 C04", technique="Lean 4 theorems (slot routing vs consumer rules) + differential correspondence on asymmetric Finnis-Sinclair models",
-    note=NOTE_COMMON + KERNEL_NOTE + "Trusted: the consumer conventions of LAMMPS eam/fs, DL_POLY EEAM and the Excel sheet as written in Props/C04.lean; openpyxl storage."),
+         "asymmetric tracer models through setfl_fs, DL_POLY_EAM_fs and excel_eam_fs (API and potable) plus an independent toy-cluster recomputation from the files. C04_code_density_fs: the Finnis-Sinclair density loop of the setfl writer regenerated from the source emits other.electronDensityFunction[e.species] per element in header order - the model's routing.",
+    ref="4 C04", technique="Lean 4 theorems (slot routing vs consumer rules) + differential correspondence on asymmetric Finnis-Sinclair models; FS density routing regenerated from source and proved equal to the model",
+    note=NOTE_COMMON + CODE_NOTE + KERNEL_NOTE + "Trusted: the consumer conventions of LAMMPS eam/fs, DL_POLY EEAM and the Excel sheet as written in Props/C04.lean; openpyxl storage."),
  "C05": dict(
     text="Theorems (Lean, any number of elements): declared count = emitted blocks = n(n+5)/2 (EAM) and 3n(n+1)/2 (EEAM) (C05_count_eam/_eeam, tri_length), one pair block per "
          "unordered pair found in either declaration order or zero (tri_complete, tri_nodup, tri_no_reversal, C05_pair_block), header n/0/(n-1)*step followed by exactly n values "
@@ -92,9 +92,9 @@ CHECKS = {
  "C10": dict(
     text="Theorems about the linear systems EXTRACTED from spline/__init__.py on every run: C10_exp_C2 and C10_buck4_C2 (a coefficient vector solving the generated 6x6 / 10x10 system gives "
          "value/slope/curvature agreement at detach, attach and r_min, zero slope at r_min), C10_shift_pos, C10_exp_shape, C10_regions, C10_buck4_start/_end. numpy.linalg.solve is a "
-         "hypothesis whose residual on the real objects is measured each run; join conditions, regions, shift constant and the three construction routes are checked on the real callables.",
-    ref="4 C10", technique="translator-extracted matrices + Lean/Mathlib proof under a solver hypothesis + residual/numeric correspondence",
-    note=NOTE_COMMON + "Conditioning of the solve is not modelled (joins compared to 2e-6 relative)."),
+         "hypothesis whose residual on the real objects is measured each run; join conditions, regions, shift constant and the three construction routes are checked on the real callables. C10_exp_unique / C10_buck4_unique: the generated systems have at most one solution for distinct detach/attach (r_dp < r_min < r_ap), so the spline is determined by the end-point data whatever numpy.linalg.solve returns.",
+    ref="4 C10", technique="translator-extracted matrices + Lean/Mathlib proof under a solver hypothesis + residual/numeric correspondence; uniqueness of the solution of the generated linear systems",
+    note=NOTE_COMMON + CODE_NOTE + "Conditioning of the solve is not modelled (joins compared to 2e-6 relative)."),
  "C12": dict(
     text="Theorems: C12_purity / C12_interleaving (energy independent of prior symbol-table contents and of interleaved evaluations, all form sets), C12_order_only_through_extras, "
          "C12_set_order_witness (the fixed defect), C12_sorted_order_example, C12_cache_idempotent. Correspondence: histories within a process (write twice, other models before/between, shuffled "
